@@ -98,6 +98,19 @@ def _k2w1u(seed):
     return Driver("k2w1u", [two_regime_series(8, 1, 7)], W=1, K=2, beta=1.0, m=2, biased=False)
 
 
+@driver("k4col")
+def _k4col(seed):
+    # four clusters, a switching cost that collapses everything into one cluster in round 0: three clusters need a
+    # refill in round 1 and the single donor (7 windows, m=2) can serve only two of them
+    return Driver("k4col", [two_regime_series(8, 1, 3)], W=2, K=4, beta=1e9, m=2)
+
+
+@driver("k4col9")
+def _k4col9(seed):
+    # same with 9 windows: the donor can serve all three
+    return Driver("k4col9", [two_regime_series(10, 1, 3)], W=2, K=4, beta=1e9, m=2)
+
+
 @driver("k2w3")
 def _k2w3(seed):
     return Driver("k2w3", [two_regime_series(10, 1, 13)], W=3, K=2, beta=1.5, m=2)
